@@ -503,11 +503,10 @@ pub trait TS {
     where
         Self: 'static,
     {
-        let path = <Self as crate::TS>::default_output_path()
-            .ok_or_else(std::any::type_name::<Self>)
-            .map_err(ExportError::CannotBeExported)?;
-
-        export::export_to::<Self, _>(path)
+        // Same path handling as `export_all`: the file is registered under its absolute,
+        // normalised path. With the raw `default_output_path()` (e.g. `./bindings/shared.ts`) a
+        // file that `export_all` had already written was not recognised and got overwritten.
+        export::export_into::<Self>(&*export::default_out_dir())
     }
 
     /// Manually export this type to the filesystem, together with all of its dependencies.  
